@@ -734,7 +734,12 @@ def parse_callee(path):
     path = path.strip()
     self_ty = trait = None
     gen = ()
-    if path.startswith('<') and not path.startswith('<impl '):
+    qualified = path.startswith('<') and not path.startswith('<impl ')
+    if path.startswith('<impl '):
+        # `<impl Trait<..> as OtherTrait>::method` (an `impl Trait` argument type) is a qualified path too
+        e0 = match_paren(path, 0)
+        qualified = e0 > 0 and find_top_level(path[1:e0], ' as ') >= 0
+    if qualified:
         e = match_paren(path, 0)
         inner = path[1:e]
         rest = path[e + 1:]
